@@ -4,9 +4,10 @@
   * `revisionPoints`        – `LocalNetwork::revision_points` (missing xy / z ⇒ `set_unused_*` +
                               `removed(id, rm_missing_*)`, `undefined_xy_z_`, `pocbod_`)
   * `revisionObservations`  – `LocalNetwork::revision_observations`: `LocalRevision` over the
-                              GENERATED requirement table (`Gen.requirements`), the "StandPoint
-                              cluster with fewer than two distinct active direction targets ⇒ all its
-                              directions passive" rule, `Cluster::update()` (`act_obs`), the
+                              GENERATED requirement table (`Gen.requirements`), the StandPoint loop
+                              that counts targets with the GENERATED loop body (`Gen.targetsBody`,
+                              `std::set<PointID> targets`, `active_directions`) and the GENERATED test
+                              (`Gen.standCmp`, `Gen.standBound`) that makes all directions passive, `Cluster::update()` (`act_obs`), the
                               `revised_obs_` / `removed_obs_` lists and `pocmer_`
   * `revise`                – the forced re-run (`update(Points)` then both revisions), which is what
                               happens after every removal (`removed()` calls `update(Points)`)
@@ -143,15 +144,31 @@ def localRev (pts : List (Pt K)) (o : Obs K) : Obs K :=
 
 def isActiveDir (o : Obs K) : Bool := o.ty == .direction && o.active
 
-/-- `active_directions`: number of distinct targets among the active directions -/
+/-- one iteration of the loop over `sp->observation_list`: `dynamic_cast<const Direction*>` and,
+    for a direction, the REGENERATED statement (`Gen.targetsBody`) -/
+def targetStep (s : TState) (o : Obs K) : TState :=
+  if o.ty == .direction then Gen.targetsBody.run o.active o.to s else s
+
+/-- the loop as coded: `std::set<PointID> targets; int active_directions = 0; for (…) …`,
+    observations in list order -/
+def countTargets (os : List (Obs K)) : TState :=
+  os.foldl targetStep { targets := [], count := 0, it := false }
+
+/-- `active_directions` after the loop -/
+def activeDirections (os : List (Obs K)) : Nat := (countTargets os).count
+
+/-- closed form (proved equal to the loop, `Lemmas/ReviseLoop.lean`): the number of distinct targets
+    among the active directions, whatever the order and the repetitions of the readings -/
 def distinctTargets (os : List (Obs K)) : Nat :=
   ((os.filter isActiveDir).map (·.to)).eraseDups.length
 
 def passDir (o : Obs K) : Obs K :=
   if o.ty == .direction then { o with active := false } else o
 
+/-- `if (active_directions <op> N)` (regenerated) ⇒ `set_passive()` on every direction of the set -/
 def standRule (c : Cluster K) : Cluster K :=
-  if c.stand && decide (distinctTargets c.obs < 2) then { c with obs := c.obs.map passDir } else c
+  if c.stand && Gen.standCmp.holds (activeDirections c.obs) Gen.standBound
+  then { c with obs := c.obs.map passDir } else c
 
 /-- `Cluster::update()` -/
 def updateCl (c : Cluster K) : Cluster K :=
